@@ -46,4 +46,5 @@ F32 stacked modifiers are re-applied
 F33 comparing signatures whose annotations cannot be evaluated
 F34 UpgradedSignature accepts any iterable
 F35 modifiers wrappers and Combination no longer reserve
+F36 wrappers.wrappers no longer lists a wrapper twice
 LIST
